@@ -455,6 +455,8 @@ impl<'c> VisitMut for Rw<'c> {
                         _ => None,
                     };
                     if let Some(sn) = src { if let Some(t) = self.local_types.get(&sn).cloned() { self.local_types.insert(pi.ident.to_string(), t); } }
+                    let it = nospace(&init.expr.to_token_stream().to_string());
+                    if it.starts_with("Arc::new(AtomicBool::new(") || it.starts_with("AtomicBool::new(") { self.local_types.insert(pi.ident.to_string(), "AtomicBoolV".to_string()); }
                 }
                 if let syn::Pat::Type(pt) = &l.pat { // drop partially inferred annotations such as `Weak<_>`
                     if pt.ty.to_token_stream().to_string().contains('_') { l.pat = (*pt.pat).clone(); }
@@ -577,6 +579,8 @@ impl<'c> VisitMut for Rw<'c> {
         }
         // M1: `std::panic::resume_unwind(..)` / `panic_any(..)` panic
         if let Expr::Call(c) = e { let f = nospace(&c.func.to_token_stream().to_string()); if matches!(f.as_str(), "std::panic::resume_unwind" | "panic::resume_unwind" | "resume_unwind" | "std::panic::panic_any" | "panic_any") { self.cx.fire("M1"); *e = if self.cx.unit.panic_forbidden { parse_quote!(vpanic_forbidden()) } else { parse_quote!(vpanic()) }; return; } }
+        // T1: `Arc::new(AtomicBool::new(v))` is the shared atomic handle itself
+        if let Expr::Call(c) = e { let f = nospace(&c.func.to_token_stream().to_string()); if c.args.len() == 1 && (f == "Arc::new" || f == "std::sync::Arc::new") { if let Expr::Call(inner) = &c.args[0] { let g = nospace(&inner.func.to_token_stream().to_string()); if g.ends_with("AtomicBool::new") { let i = c.args[0].clone(); self.cx.fire("T1"); *e = i; } } } }
         // D5: `drop(e)` / `std::mem::drop(e)` ends the value's life here
         if let Expr::Call(c) = e { let f = nospace(&c.func.to_token_stream().to_string()); if c.args.len() == 1 && matches!(f.as_str(), "drop" | "std::mem::drop" | "mem::drop") { let a = c.args[0].clone(); self.cx.fire("D5"); *e = parse_quote!(vdrop(#a)); } }
         // T4: to_owned on Clone types is clone
@@ -818,6 +822,31 @@ pub fn captures_of_closure(c: &syn::ExprClosure, scope: &BTreeSet<String>) -> Ve
 pub fn captures_of_block(b: &syn::Block, scope: &BTreeSet<String>) -> Vec<String> {
     let mut fv = Free { bound: vec![], free: vec![] }; fv.visit_block(b);
     fv.free.into_iter().filter(|n| scope.contains(n) || n == "self" || n.starts_with("self.")).collect()
+}
+
+/// G5: `let x = <place>;` (x immutable, place a path / field chain) at the top level of a function body, where nothing under the place's
+/// root (nor x) is assigned anywhere in the function
+pub fn immutable_place_lets(b: &syn::Block) -> Vec<(String, String)> {
+    fn place_root(e: &Expr) -> Option<String> { match e { Expr::Path(p) => p.path.get_ident().map(|i| i.to_string()), Expr::Field(f) => place_root(&f.base), _ => None } }
+    struct Assigned(BTreeSet<String>);
+    impl<'a> Visit<'a> for Assigned {
+        fn visit_expr_assign(&mut self, a: &'a syn::ExprAssign) { if let Some(r) = place_root(&a.left) { self.0.insert(r); } syn::visit::visit_expr_assign(self, a); }
+        fn visit_expr_binary(&mut self, bx: &'a syn::ExprBinary) { if matches!(bx.op, syn::BinOp::AddAssign(_) | syn::BinOp::SubAssign(_) | syn::BinOp::MulAssign(_) | syn::BinOp::DivAssign(_)) { if let Some(r) = place_root(&bx.left) { self.0.insert(r); } } syn::visit::visit_expr_binary(self, bx); }
+        fn visit_expr_reference(&mut self, r: &'a syn::ExprReference) { if r.mutability.is_some() { if let Some(root) = place_root(&r.expr) { self.0.insert(root); } } syn::visit::visit_expr_reference(self, r); }
+        fn visit_expr_method_call(&mut self, m: &'a syn::ExprMethodCall) { if let Some(root) = place_root(&m.receiver) { if let Expr::Field(_) = &*m.receiver { let _ = root; } } syn::visit::visit_expr_method_call(self, m); }
+    }
+    let mut asg = Assigned(BTreeSet::new()); asg.visit_block(b);
+    let mut out = vec![];
+    for st in &b.stmts {
+        if let Stmt::Local(l) = st { if let (syn::Pat::Ident(pi), Some(init)) = (&l.pat, &l.init) {
+            if pi.mutability.is_none() && pi.by_ref.is_none() && init.diverge.is_none() && matches!(&*init.expr, Expr::Field(_)) {
+                if let Some(root) = place_root(&init.expr) { if !asg.0.contains(&root) && !asg.0.contains(&pi.ident.to_string()) {
+                    out.push((pi.ident.to_string(), tidy(&init.expr.to_token_stream().to_string()).replace(" . ", ".").replace(" .", ".").replace(". ", ".")));
+                } }
+            }
+        } }
+    }
+    out
 }
 
 // ------------------------------------------------------------------------------------------
